@@ -488,6 +488,33 @@ pub fn internally_defined_symbols(body: &Cell) -> Result<HashSet<&Cell>, Error> 
     Ok(symbols)
 }
 
+
+/// Verification hooks (cargo feature `verif-hooks`). Add-only.
+#[cfg(feature = "verif-hooks")]
+impl EnvironmentMap {
+    pub fn verif_new(map: Vec<(VCell, BindingSource)>) -> EnvironmentMap {
+        EnvironmentMap { map }
+    }
+}
+
+#[cfg(feature = "verif-hooks")]
+impl GlobalEnvironment {
+    pub fn verif_set(&mut self, bindings: Vec<(usize, usize)>, slots: Vec<VCell>) {
+        self.bindings = bindings.into_iter().collect();
+        self.slots = slots;
+    }
+
+    pub fn verif_bindings(&self) -> Vec<(usize, usize)> {
+        let mut v: Vec<(usize, usize)> = self.bindings.iter().map(|(k, v)| (*k, *v)).collect();
+        v.sort();
+        v
+    }
+
+    pub fn verif_slots(&self) -> &[VCell] {
+        &self.slots
+    }
+}
+
 #[cfg(test)]
 mod tests {
     use super::*;
